@@ -1,3 +1,4 @@
+CONSTANT LargeM = {33, 40, 48, 64, 65, 100, 128, 200}
 CONSTANT MaxM = 24
 SPECIFICATION FairImplSpec
 INVARIANT TypeOK
